@@ -176,7 +176,7 @@ func (w *c12World) deliverLive(msg sdk.Msg, what string) {
 	write()
 }
 
-func dec(s string) sdk.Dec { return sdk.MustNewDecFromStr(s) }
+func c12Dec(s string) sdk.Dec { return sdk.MustNewDecFromStr(s) }
 
 func c12Build(t *testing.T) *c12World {
 	w := &c12World{t: t}
@@ -285,7 +285,7 @@ func c12Build(t *testing.T) *c12World {
 	// --- locker: app harbor, asset a2, collector lookup, whitelisting
 	w.must(w.app.CollectorKeeper.WasmSetCollectorLookupTable(w.ctx, &bindings.MsgSetCollectorLookupTable{
 		AppID: w.appVault, CollectorAssetID: w.a2, SecondaryAssetID: w.a3, SurplusThreshold: sdk.NewInt(10000000), DebtThreshold: sdk.NewInt(5000000),
-		LockerSavingRate: dec("0.1"), LotSize: sdk.NewInt(2000000), BidFactor: dec("0.01"), DebtLotSize: sdk.NewInt(2000000),
+		LockerSavingRate: c12Dec("0.1"), LotSize: sdk.NewInt(2000000), BidFactor: c12Dec("0.01"), DebtLotSize: sdk.NewInt(2000000),
 	}), "collector lookup")
 	_, err := w.app.LockerKeeper.AddWhiteListedAsset(w.ctx, &lockertypes.MsgAddWhiteListedAssetRequest{From: w.admin.String(), AppId: w.appVault, AssetId: w.a2})
 	w.must(err, "locker whitelist")
@@ -311,9 +311,9 @@ func c12Build(t *testing.T) *c12World {
 	}
 	rates := func(id, cid uint64, stable bool) {
 		w.must(w.app.LendKeeper.AddAssetRatesParams(w.ctx, lendtypes.AssetRatesParams{
-			AssetID: id, UOptimal: dec("0.8"), Base: dec("0.002"), Slope1: dec("0.06"), Slope2: dec("0.6"), EnableStableBorrow: stable,
-			StableBase: dec("0.04"), StableSlope1: dec("0.04"), StableSlope2: dec("0.06"), Ltv: dec("0.8"), LiquidationThreshold: dec("0.85"),
-			LiquidationPenalty: dec("0.025"), LiquidationBonus: dec("0.025"), ReserveFactor: dec("0.1"), CAssetID: cid,
+			AssetID: id, UOptimal: c12Dec("0.8"), Base: c12Dec("0.002"), Slope1: c12Dec("0.06"), Slope2: c12Dec("0.6"), EnableStableBorrow: stable,
+			StableBase: c12Dec("0.04"), StableSlope1: c12Dec("0.04"), StableSlope2: c12Dec("0.06"), Ltv: c12Dec("0.8"), LiquidationThreshold: c12Dec("0.85"),
+			LiquidationPenalty: c12Dec("0.025"), LiquidationBonus: c12Dec("0.025"), ReserveFactor: c12Dec("0.1"), CAssetID: cid,
 		}), "rates")
 	}
 	rates(w.a1, w.c1, false)
@@ -387,13 +387,13 @@ func c12Build(t *testing.T) *c12World {
 	half := pc.Amount.QuoRaw(2)
 	w.deliverLive(liquiditytypes.NewMsgFarm(w.appLiq, pool.Id, w.A, sdk.NewCoin(pool.PoolCoinDenom, half)), "farm A")
 	// A: limit sell far above the pool price (rests), long lifespan
-	price := dec("1.05")
+	price := c12Dec("1.05")
 	amt := sdk.NewInt(1000000)
 	offer := sdk.NewCoin("uasset1", amt)
 	offer = offer.Add(sdk.NewCoin("uasset1", sdk.NewDecFromInt(offer.Amount).Mul(params.SwapFeeRate).RoundInt()))
 	w.deliverLive(liquiditytypes.NewMsgLimitOrder(w.appLiq, w.A, pair.Id, liquiditytypes.OrderDirectionSell, offer, "uasset2", price, amt, 10*time.Hour), "limit order A")
 	// A: market-making orders
-	w.deliverLive(liquiditytypes.NewMsgMMOrder(w.appLiq, w.A, pair.Id, dec("1.09"), dec("1.06"), sdk.NewInt(1000000), dec("0.95"), dec("0.92"), sdk.NewInt(1000000), 10*time.Hour), "mm order A")
+	w.deliverLive(liquiditytypes.NewMsgMMOrder(w.appLiq, w.A, pair.Id, c12Dec("1.09"), c12Dec("1.06"), sdk.NewInt(1000000), c12Dec("0.95"), c12Dec("0.92"), sdk.NewInt(1000000), 10*time.Hour), "mm order A")
 	w.liqNextBlock()
 	for _, o := range w.app.LiquidityKeeper.GetOrdersByOrderer(w.ctx, w.appLiq, w.A) {
 		if o.Type == liquiditytypes.OrderTypeLimit {
@@ -409,8 +409,8 @@ func c12Build(t *testing.T) *c12World {
 
 	// --- auctionsV2: auction params + a limit bid of A and of D (collateral a1, debt a2, premium 5)
 	w.app.NewaucKeeper.SetAuctionParams(w.ctx, auctionsV2types.AuctionParams{
-		AuctionDurationSeconds: 3600, Step: dec("0.1"), WithdrawalFee: dec("0.0"), ClosingFee: dec("0.0"), MinUsdValueLeft: 100000,
-		BidFactor: dec("0.1"), LiquidationPenalty: dec("0.1"), AuctionBonus: dec("0.0"),
+		AuctionDurationSeconds: 3600, Step: c12Dec("0.1"), WithdrawalFee: c12Dec("0.0"), ClosingFee: c12Dec("0.0"), MinUsdValueLeft: 100000,
+		BidFactor: c12Dec("0.1"), LiquidationPenalty: c12Dec("0.1"), AuctionBonus: c12Dec("0.0"),
 	})
 	w.deliverLive(&auctionsV2types.MsgDepositLimitBidRequest{CollateralTokenId: w.a1, DebtTokenId: w.a2, PremiumDiscount: sdk.NewInt(5), Bidder: w.A.String(), Amount: sdk.NewCoin("uasset2", sdk.NewInt(7000000))}, "limit bid A")
 	w.deliverLive(&auctionsV2types.MsgDepositLimitBidRequest{CollateralTokenId: w.a1, DebtTokenId: w.a2, PremiumDiscount: sdk.NewInt(5), Bidder: w.D.String(), Amount: sdk.NewCoin("uasset2", sdk.NewInt(9000000))}, "limit bid D")
@@ -567,7 +567,7 @@ func (w *c12World) deliver(from sdk.Context, before map[string]string, victimBef
 	return res
 }
 
-func b01(b bool) string {
+func c12b01(b bool) string {
 	if b {
 		return "1"
 	}
@@ -723,7 +723,7 @@ func c12Catalogue() []c12Case {
 			return liquiditytypes.NewMsgCancelMMOrder(w.appLiq, s, w.liqPair)
 		}},
 		{"liquidity.MMOrder", "A", false, true, "liq", "", func(w *c12World, s sdk.AccAddress) sdk.Msg {
-			return liquiditytypes.NewMsgMMOrder(w.appLiq, s, w.liqPair, dec("1.09"), dec("1.06"), i(2000000), dec("0.95"), dec("0.92"), i(2000000), 10*time.Hour)
+			return liquiditytypes.NewMsgMMOrder(w.appLiq, s, w.liqPair, c12Dec("1.09"), c12Dec("1.06"), i(2000000), c12Dec("0.95"), c12Dec("0.92"), i(2000000), 10*time.Hour)
 		}},
 		{"liquidity.Unfarm", "A", false, true, "liq", "", func(w *c12World, s sdk.AccAddress) sdk.Msg {
 			return liquiditytypes.NewMsgUnfarm(w.appLiq, w.liqPool, s, sdk.NewCoin(w.poolCoinDenom, i(1000000)))
@@ -820,8 +820,8 @@ func (w *c12World) emit(tr *Trace, c c12Case, scnName string, signer string, adm
 		}
 	}
 	tr.Line("grd.begin", c.handler, scnName)
-	tr.Line("grd.msg", c.handler, scnName, b01(owner), b01(c.names), b01(admin), b01(scn.brk), scn.esm, priceOK, b01(base),
-		r.outcome, b01(r.parentEmpty), b01(r.branchClean), b01(r.victimSame))
+	tr.Line("grd.msg", c.handler, scnName, c12b01(owner), c12b01(c.names), c12b01(admin), c12b01(scn.brk), scn.esm, priceOK, c12b01(base),
+		r.outcome, c12b01(r.parentEmpty), c12b01(r.branchClean), c12b01(r.victimSame))
 	tr.Count("msg:" + c.handler + ":" + r.outcome)
 	if base {
 		tr.Count("base:" + r.outcome)
@@ -991,9 +991,9 @@ func c12KillSwitch(t *testing.T, tr *Trace, w *c12World) {
 			ctx := w.stage(c12Scn{esm: "none", price: "all", brk: !on}, w.appVault)
 			before := w.dump(ctx)
 			r := w.deliver(ctx, before, w.victimProj(ctx), msg)
-			tr.Line("grd.begin", c.handler, "kill/"+signer+"/"+b01(on))
-			tr.Line("grd.msg", c.handler, "kill/"+signer+"/"+b01(on), "1", "0", b01(signer == "admin"), b01(!on), "none", "1", b01(signer == "admin"),
-				r.outcome, b01(r.parentEmpty), b01(r.branchClean), b01(r.victimSame))
+			tr.Line("grd.begin", c.handler, "kill/"+signer+"/"+c12b01(on))
+			tr.Line("grd.msg", c.handler, "kill/"+signer+"/"+c12b01(on), "1", "0", c12b01(signer == "admin"), c12b01(!on), "none", "1", c12b01(signer == "admin"),
+				r.outcome, c12b01(r.parentEmpty), c12b01(r.branchClean), c12b01(r.victimSame))
 			tr.Count("kill:" + signer + ":" + r.outcome)
 		}
 	}
@@ -1041,7 +1041,7 @@ func c12WasmCatalogue() []c12WasmCase {
 		{"MsgSetCollectorLookupTable", 0, func(w *c12World, s sdk.AccAddress) bindings.ComdexMessages {
 			return bindings.ComdexMessages{MsgSetCollectorLookupTable: &bindings.MsgSetCollectorLookupTable{
 				AppID: w.appVault, CollectorAssetID: w.a1, SecondaryAssetID: w.a3, SurplusThreshold: i(10000000), DebtThreshold: i(5000000),
-				LockerSavingRate: dec("0.1"), LotSize: i(2000000), BidFactor: dec("0.01"), DebtLotSize: i(2000000)}}
+				LockerSavingRate: c12Dec("0.1"), LotSize: i(2000000), BidFactor: c12Dec("0.01"), DebtLotSize: i(2000000)}}
 		}, nil},
 		{"MsgSetAuctionMappingForApp", 0, func(w *c12World, s sdk.AccAddress) bindings.ComdexMessages {
 			return bindings.ComdexMessages{MsgSetAuctionMappingForApp: &bindings.MsgSetAuctionMappingForApp{
@@ -1054,7 +1054,7 @@ func c12WasmCatalogue() []c12WasmCase {
 		}, nil},
 		{"MsgUpdateCollectorLookupTable", 0, func(w *c12World, s sdk.AccAddress) bindings.ComdexMessages {
 			return bindings.ComdexMessages{MsgUpdateCollectorLookupTable: &bindings.MsgUpdateCollectorLookupTable{
-				AppID: w.appVault, AssetID: w.a2, DebtThreshold: i(5000001), SurplusThreshold: i(10000001), LotSize: i(2000000), DebtLotSize: i(2000000), BidFactor: dec("0.01"), LSR: dec("0.1")}}
+				AppID: w.appVault, AssetID: w.a2, DebtThreshold: i(5000001), SurplusThreshold: i(10000001), LotSize: i(2000000), DebtLotSize: i(2000000), BidFactor: c12Dec("0.01"), LSR: c12Dec("0.1")}}
 		}, nil},
 		{"MsgRemoveWhitelistAssetLocker", 0, func(w *c12World, s sdk.AccAddress) bindings.ComdexMessages {
 			return bindings.ComdexMessages{MsgRemoveWhitelistAssetLocker: &bindings.MsgRemoveWhitelistAssetLocker{AppID: w.appVault, AssetID: w.a2}}
@@ -1076,7 +1076,7 @@ func c12WasmCatalogue() []c12WasmCase {
 		}},
 		{"MsgAddAuctionParams", 0, func(w *c12World, s sdk.AccAddress) bindings.ComdexMessages {
 			return bindings.ComdexMessages{MsgAddAuctionParams: &bindings.MsgAddAuctionParams{
-				AppID: w.appVault, AuctionDurationSeconds: 300, Buffer: dec("1.2"), Cusp: dec("0.6"), Step: 1, PriceFunctionType: 1, SurplusID: 1, DebtID: 2, DutchID: 3, BidDurationSeconds: 300}}
+				AppID: w.appVault, AuctionDurationSeconds: 300, Buffer: c12Dec("1.2"), Cusp: c12Dec("0.6"), Step: 1, PriceFunctionType: 1, SurplusID: 1, DebtID: 2, DutchID: 3, BidDurationSeconds: 300}}
 		}, nil},
 		{"MsgBurnGovTokensForApp", 0, func(w *c12World, s sdk.AccAddress) bindings.ComdexMessages {
 			return bindings.ComdexMessages{MsgBurnGovTokensForApp: &bindings.MsgBurnGovTokensForApp{AppID: w.appGov, From: s, Amount: coin("ugov", 1000)}}
@@ -1166,7 +1166,7 @@ func c12Wasm(t *testing.T, tr *Trace, w *c12World) {
 				}
 				empty := len(diffStores(before, w.dump(tx))) == 0
 				tr.Line("grd.begin", c.variant, chainID+"/"+s.kind)
-				tr.Line("grd.wasm", c.variant, chainID, s.kind, s.addr.String(), b01(s.kind == "designated"), outcome, b01(empty))
+				tr.Line("grd.wasm", c.variant, chainID, s.kind, s.addr.String(), c12b01(s.kind == "designated"), outcome, c12b01(empty))
 				tr.Count("wasm:" + s.kind + ":" + outcome)
 				if s.kind == "designated" && outcome != "ok" {
 					t.Logf("wasm %s on %s by designated contract: %s: %v", c.variant, chainID, outcome, derr)
@@ -1207,7 +1207,7 @@ func TestC14(t *testing.T) {
 						if c.handler == "vault.MsgWithdraw" && !brk && esmS == "in" {
 							base = true // possible until the cool-off period ends (the ESM price snapshot is used)
 						}
-						w.emit(tr, c, fmt.Sprintf("ctl/d%d/brk%s/esm-%s/price-%s", d, b01(brk), esmS, pr), c.owner, false, scn, base, r)
+						w.emit(tr, c, fmt.Sprintf("ctl/d%d/brk%s/esm-%s/price-%s", d, c12b01(brk), esmS, pr), c.owner, false, scn, base, r)
 						if base && r.outcome != "ok" {
 							t.Logf("baseline %s failed: %s", c.handler, r.errText)
 						}
@@ -1230,7 +1230,7 @@ func TestC14(t *testing.T) {
 			scns = append(scns, c12Scn{esm: "none", price: "all"})
 			for si, scn := range scns {
 				base := !scn.brk && scn.esm == "none" && scn.price == "all"
-				c12TxCase(t, tr, c, c.owner, fmt.Sprintf("txctl/%d/%d/brk%s/esm-%s/price-%s", ci, si, b01(scn.brk), scn.esm, scn.price), scn, base)
+				c12TxCase(t, tr, c, c.owner, fmt.Sprintf("txctl/%d/%d/brk%s/esm-%s/price-%s", ci, si, c12b01(scn.brk), scn.esm, scn.price), scn, base)
 			}
 		}
 	}
@@ -1243,18 +1243,18 @@ func (w *c12World) sweepStage(brkVault, brkLend bool, esmVault string) sdk.Conte
 	ctx = ctx.WithBlockHeight(ctx.BlockHeight() + 5).WithBlockTime(ctx.BlockTime().Add(30 * time.Second))
 	w.must(w.app.LiquidationKeeper.WasmWhitelistAppIDLiquidation(ctx, w.appVault), "whitelist liquidation")
 	for _, app := range []uint64{w.appVault, w.appLend} {
-		w.app.AuctionKeeper.SetAuctionParams(ctx, auctiontypes.AuctionParams{AppId: app, AuctionDurationSeconds: 300, Buffer: dec("1.2"), Cusp: dec("0.6"),
+		w.app.AuctionKeeper.SetAuctionParams(ctx, auctiontypes.AuctionParams{AppId: app, AuctionDurationSeconds: 300, Buffer: c12Dec("1.2"), Cusp: c12Dec("0.6"),
 			Step: sdk.NewInt(1), PriceFunctionType: 1, SurplusId: 1, DebtId: 2, DutchId: 3, BidDurationSeconds: 300})
 		w.app.NewliqKeeper.SetLiquidationWhiteListing(ctx, liquidationsV2types.LiquidationWhiteListing{AppId: app, Initiator: true, IsDutchActivated: true,
-			DutchAuctionParam:  &liquidationsV2types.DutchAuctionParam{Premium: dec("0.1"), Discount: dec("0.1"), DecrementFactor: sdk.NewInt(1)},
-			IsEnglishActivated: true, EnglishAuctionParam: &liquidationsV2types.EnglishAuctionParam{DecrementFactor: sdk.NewInt(1)}, KeeeperIncentive: dec("0.1")})
+			DutchAuctionParam:  &liquidationsV2types.DutchAuctionParam{Premium: c12Dec("0.1"), Discount: c12Dec("0.1"), DecrementFactor: sdk.NewInt(1)},
+			IsEnglishActivated: true, EnglishAuctionParam: &liquidationsV2types.EnglishAuctionParam{DecrementFactor: sdk.NewInt(1)}, KeeeperIncentive: c12Dec("0.1")})
 	}
-	_ = w.app.LendKeeper.AddAuctionParamsData(ctx, lendtypes.AuctionParams{AppId: w.appLend, AuctionDurationSeconds: 21600, Buffer: dec("1.2"), Cusp: dec("0.7"),
+	_ = w.app.LendKeeper.AddAuctionParamsData(ctx, lendtypes.AuctionParams{AppId: w.appLend, AuctionDurationSeconds: 21600, Buffer: c12Dec("1.2"), Cusp: c12Dec("0.7"),
 		Step: sdk.NewInt(360), PriceFunctionType: 1, DutchId: 3, BidDurationSeconds: 3600})
 	// collector: surplus on a2, debt on a1
 	w.must(w.app.CollectorKeeper.WasmSetCollectorLookupTable(ctx, &bindings.MsgSetCollectorLookupTable{
 		AppID: w.appVault, CollectorAssetID: w.a1, SecondaryAssetID: w.a3, SurplusThreshold: sdk.NewInt(10000000), DebtThreshold: sdk.NewInt(5000000),
-		LockerSavingRate: dec("0.1"), LotSize: sdk.NewInt(200000), BidFactor: dec("0.01"), DebtLotSize: sdk.NewInt(2000000)}), "collector a1")
+		LockerSavingRate: c12Dec("0.1"), LotSize: sdk.NewInt(200000), BidFactor: c12Dec("0.01"), DebtLotSize: sdk.NewInt(2000000)}), "collector a1")
 	w.must(w.app.CollectorKeeper.WasmSetAuctionMappingForApp(ctx, &bindings.MsgSetAuctionMappingForApp{AppID: w.appVault, AssetIDs: w.a2, IsSurplusAuctions: true,
 		AssetOutOraclePrices: false, AssetOutPrices: 1000000}), "mapping a2")
 	w.must(w.app.CollectorKeeper.WasmSetAuctionMappingForApp(ctx, &bindings.MsgSetAuctionMappingForApp{AppID: w.appVault, AssetIDs: w.a1, IsDebtAuctions: true,
@@ -1388,9 +1388,9 @@ func c14Sweeps(t *testing.T, tr *Trace, w *c12World) {
 						if !brk {
 							appSame = true
 						}
-						tr.Line("grd.begin", l.name, fmt.Sprintf("%s/brk%s/esm-%s", l.app, b01(brk), esmL))
-						tr.Line("grd.sweep", l.name, l.app, b01(brk), esmL, b01(base), fmt.Sprint(started), b01(appSame))
-						tr.Count(fmt.Sprintf("sweep:%s:brk%s:esm-%s:started%d", l.name, b01(brk), esmL, started))
+						tr.Line("grd.begin", l.name, fmt.Sprintf("%s/brk%s/esm-%s", l.app, c12b01(brk), esmL))
+						tr.Line("grd.sweep", l.name, l.app, c12b01(brk), esmL, c12b01(base), fmt.Sprint(started), c12b01(appSame))
+						tr.Count(fmt.Sprintf("sweep:%s:brk%s:esm-%s:started%d", l.name, c12b01(brk), esmL, started))
 						if base && started == 0 {
 							t.Logf("sweep %s for app %s (brkVault=%v brkLend=%v esm=%s) started nothing with all controls clear: %s -> %s", l.name, l.app, brkVault, brkLend, esmS, p0, p1)
 						}
